@@ -383,9 +383,8 @@ def growScan (fp2 incr : Nat) : List Chunk → Nat → Sum Chunk Nat
     if c.1 = fp2 ∧ c.2 + 8 ≥ incr then .inl c
     else growScan fp2 incr rest (if c.2 > s then c.2 else s)
 
-def realloc (cfg : Cfg) (h : Heap) (ptr : Option Nat) (len0 : Nat) : Option Res :=
-  -- rounding, and (fix) the minimum chunk size of malloc
-  let len := minLen (roundLen cfg.W len0)
+/-- realloc after the request size has been adjusted to `len` -/
+def reallocCore (cfg : Cfg) (h : Heap) (ptr : Option Nat) (len : Nat) : Option Res :=
   match ptr with
   | none => some (malloc cfg h len)
   | some p =>
@@ -431,9 +430,16 @@ def realloc (cfg : Cfg) (h : Heap) (ptr : Option Nat) (len0 : Nat) : Option Res 
               | none => none
               | some r2 => some ⟨r2.h, some memp, r.evs ++ .cp memp p sz :: r2.evs⟩
 
-/-- the routine as it was before `fix: realloc() enforces malloc()'s minimum
-chunk size`: only the shrink path differs for `len = 0` -/
-def reallocOrigLen (cfg : Cfg) (len0 : Nat) : Nat := roundLen cfg.W len0
+/-- `realloc(ptr, len)`: the request is rounded like in malloc and (after
+`fix: realloc() enforces malloc()'s minimum chunk size`) raised to the minimum
+chunk size -/
+def realloc (cfg : Cfg) (h : Heap) (ptr : Option Nat) (len0 : Nat) : Option Res :=
+  reallocCore cfg h ptr (minLen (roundLen cfg.W len0))
+
+/-- the routine as it was before that fix: no minimum, `realloc(p, 0)` can
+leave a chunk with `sz = 0` behind -/
+def reallocOrig (cfg : Cfg) (h : Heap) (ptr : Option Nat) (len0 : Nat) : Option Res :=
+  reallocCore cfg h ptr (roundLen cfg.W len0)
 
 /-! ### histories -/
 
